@@ -136,8 +136,8 @@ def windowParamsOk (size step : Nat) : Bool := size > 0 && step > 0 && step ≤ 
 def facResult (fac : Fac) (cls : Int) (read : List V) (prev : Option V) : V :=
   match fac with
   | .first => read.headD (.int 0)
-  | .sum => .int ((read.map (fun v => v.flat.sum)).sum)
-  | .firstk _ => .int ((read.map (fun v => v.flat.sum)).sum)
+  | .sum => .arr ((read.map (fun v => v.flat.sum)).sum :: (match prev with | some p => p.flat | none => []))
+  | .firstk _ => .arr ((read.map (fun v => v.flat.sum)).sum :: (match prev with | some p => p.flat | none => []))
   | .none => .int cls
   | .firstprev => .arr ((read.headD (.int 0)).flat ++ (match prev with | some p => p.flat | none => []))
 
@@ -287,7 +287,8 @@ def emitP : Nat → Pipe → World → Res V × Pipe × World
       | (.panic b, p, w) => (.panic b, .skip n true p, w)
       | (.oof, p, w) => (.oof, .skip n true p, w)
   | fuel+1, .concat ps next curOpen outerOpen, w =>
-    if w.cancelled then (.fail .ctx, .concat ps next curOpen outerOpen, w)
+    if ps.length = 0 then (.eof, .concat ps next curOpen outerOpen, w)   -- Empty(): EOF without a ctx check
+    else if w.cancelled then (.fail .ctx, .concat ps next curOpen outerOpen, w)
     else if !curOpen then (.eof, .concat ps next curOpen outerOpen, w)
     else
       match ps.get? (next - 1) with
